@@ -96,7 +96,7 @@ class EngineP(EngineBase):
         mode = ch.weighted([("real", 2), ("objmemo", 3), ("memoparse", 5)], "mode")
         if self.tier == "thorough":
             mode = ch.weighted([("real", 4), ("objmemo", 3), ("memoparse", 3)], "mode2")
-        nmax = {"real": 6, "objmemo": 16, "memoparse": 48}[mode]
+        nmax = {"real": 6, "objmemo": 16, "memoparse": 48 if ch.chance(4, 5, "big") else 96}[mode]
         n = ch.randint(0 if ch.chance(1, 30, "empty") else 1, nmax, "ntasks")
         p_broken = ch.choice([0, 1, 2, 4], "p_broken")
         p_fault = ch.choice([0, 1, 2, 4], "p_fault")
@@ -265,6 +265,18 @@ class EngineP(EngineBase):
             FaultyLark(self.grammar, start="fbody", parser="earley")
             ParseSeam.constructed = 0
         V = out.violations
+        # the machine's CPU count is part of the simulated configuration: whatever the code derives from it
+        # (pool size, chunk sizes) must not change the result
+        import multiprocessing
+        cpus = 1 + ch.draw(16, "cpu_count")
+        simpool.SimPool.cpus = cpus
+        os.cpu_count = lambda: cpus
+        multiprocessing.cpu_count = lambda: cpus
+        if hasattr(os, "sched_getaffinity"):
+            os.sched_getaffinity = lambda pid=0: set(range(cpus))
+        if hasattr(os, "process_cpu_count"):
+            os.process_cpu_count = lambda: cpus
+        log.add("cpu_count", cpus)
         calls = sorted({t.get("call", 0) for t in all_tasks}) or [0]
         n_fail_total = 0
         for ci, call in enumerate(calls):
